@@ -307,7 +307,7 @@ class Hoister(object):
             d = self.inj.get(e[1])
             if d is not None and d[0] == 'fun':
                 params, body = d[1], d[2]
-                m = {}
+                m = self.fun_locals(params, body)
                 for f, a in args:
                     m[params[f]] = a
                 return self.expr(subst_expr(body, m), extra)
@@ -315,6 +315,15 @@ class Hoister(object):
             extra.append(('call', e[1], args + (('logica_value', ('var', v)),)))
             return ('var', v)
         raise ValueError(e)
+
+    def fun_locals(self, params, body):
+        """Capture-avoiding: the variables of an injectible function's value expression
+        that are not parameters (locals of its aggregating expressions) are renamed apart
+        at every call.  {} for a body without aggregating expressions."""
+        m = {}
+        for v in sorted(expr_vars(body) - set(params)):
+            m[v] = ('var', self.ifresh())
+        return m
 
     def lit(self, l, extra, out):
         k = l[0]
@@ -335,7 +344,7 @@ class Hoister(object):
             if d is not None and d[0] == 'fun':
                 # F(args, logica_value: v) against a functional injectible
                 params, fbody = d[1], d[2]
-                m = {}
+                m = self.fun_locals(params, fbody)
                 val = None
                 for f, a in args:
                     if f == 'logica_value':
